@@ -515,10 +515,12 @@ def install(fault=None):
 
     def _apply_mutator(mutator, exprs, max_depth=None, *a, **kw):
         emit('apply_begin', mut=type(mutator).__name__, max_depth=max_depth,
-             nexprs=nodes.count_exprs(exprs))
+             nexprs=nodes.count_exprs(exprs),
+             toks=None if LIGHT else toks(exprs))
         res = real_apply_mut(mutator, exprs, max_depth, *a, **kw)
         emit('apply_end', tests=res[1], reduced=res[2],
-             nexprs=nodes.count_exprs(res[0]))
+             nexprs=nodes.count_exprs(res[0]),
+             toks=None if LIGHT else toks(res[0]))
         return res
 
     sd._apply_mutator = _apply_mutator
